@@ -76,11 +76,11 @@ func (w *c29w) Write(p []byte) (int, error) {
 }
 
 type c29cfg struct {
-	kinds   []string // one command per kind (len 1: DoStream, else DoMultiStream)
-	fault   string   // none | writer | cut | ctxdone
-	at      int      // byte offset of the fault
-	chunk   int      // bytes per network read
-	pool    int
+	kinds []string // one command per kind (len 1: DoStream, else DoMultiStream)
+	fault string   // none | writer | cut | ctxdone
+	at    int      // byte offset of the fault
+	chunk int      // bytes per network read
+	pool  int
 }
 
 func (c c29cfg) name() string {
